@@ -31,6 +31,8 @@ pub enum FaultKind {
     DelayedRpcError,
     /// (load-configuration only) rpc-error severity error followed by <ok/>
     ErrorThenOk,
+    /// (load-configuration only) rpc-error severity error, then a warning, then <ok/>
+    ErrorWarningThenOk,
 }
 
 impl FaultKind {
@@ -47,6 +49,7 @@ impl FaultKind {
             FaultKind::StallThenClose => "stall-then-close",
             FaultKind::DelayedRpcError => "delayed-rpc-error",
             FaultKind::ErrorThenOk => "error-then-ok",
+            FaultKind::ErrorWarningThenOk => "error-warning-then-ok",
         }
     }
     /// does this fault mean "the step failed" (as opposed to a benign variation)?
@@ -57,7 +60,7 @@ impl FaultKind {
         [
             FaultKind::RpcError, FaultKind::WarningThenOk, FaultKind::NoPositive, FaultKind::NotXml, FaultKind::Truncated,
             FaultKind::WrongMessageId, FaultKind::CloseBefore, FaultKind::CloseAfter, FaultKind::StallThenClose,
-            FaultKind::DelayedRpcError, FaultKind::ErrorThenOk,
+            FaultKind::DelayedRpcError, FaultKind::ErrorThenOk, FaultKind::ErrorWarningThenOk,
         ]
         .into_iter()
         .find(|f| f.name() == s)
@@ -73,6 +76,8 @@ pub struct Script {
     /// for the daemon test: per connection index, fail the session right after the hello?
     pub fail_connections: Vec<bool>,
     pub ephemeral_name: String,
+    /// write every reply in chunks of this many bytes (one TLS record each), 0 = whole
+    pub chunk: usize,
 }
 
 #[derive(Clone, Debug)]
@@ -152,6 +157,17 @@ impl FakeJunos {
     }
     pub fn stop(self) {
         self.task.abort();
+    }
+}
+
+async fn write_chunked(s: &mut tokio_rustls::server::TlsStream<tokio::net::TcpStream>, b: &[u8], chunk: usize) {
+    if chunk == 0 {
+        let _ = s.write_all(b).await;
+    } else {
+        for c in b.chunks(chunk) {
+            let _ = s.write_all(c).await;
+            let _ = s.flush().await;
+        }
     }
 }
 
@@ -312,6 +328,7 @@ async fn serve(mut s: tokio_rustls::server::TlsStream<tokio::net::TcpStream>, se
                         reply(&idv, RPC_ERROR)
                     }),
                     FaultKind::ErrorThenOk => Some(reply(&idv, &format!("<load-configuration-results>{RPC_ERROR}<ok/></load-configuration-results>"))),
+                    FaultKind::ErrorWarningThenOk => Some(reply(&idv, &format!("<load-configuration-results>{RPC_ERROR}{RPC_WARNING}<ok/></load-configuration-results>"))),
                     FaultKind::WarningThenOk => Some(if op == "load-configuration" {
                         reply(&idv, &format!("<load-configuration-results>{RPC_WARNING}<ok/></load-configuration-results>"))
                     } else {
@@ -367,7 +384,7 @@ async fn serve(mut s: tokio_rustls::server::TlsStream<tokio::net::TcpStream>, se
             if holding {
                 held.push(b);
             } else {
-                let _ = s.write_all(&b).await;
+                write_chunked(&mut s, &b, script.chunk).await;
                 let _ = s.flush().await;
             }
         }
